@@ -84,18 +84,34 @@ def route (t : Table) (f : TFrame) : Table × Route :=
       | none, none => none
     (t.set f.handle (if under_way then some (id, tag) else none), .withheld id)
 
-/-- the session: the table, and per transaction the frames withheld so far, oldest first -/
+/-- source facts: a transfer that is withheld is counted as received when it arrives
+    (`on_incoming_transfer_received` is called on the way to `on_incoming_post`), a transfer that is handed on is
+    counted by `Session::on_incoming_transfer` (which calls the same function first), and the replay at the
+    commit hands the frames to their links without counting them again (`Amqp.Txn.commitRemovesFirst` has that
+    `commit_transaction` calls `deliver_incoming_transfer` and not `on_incoming_transfer`) -/
+def countsWithheld : Bool :=
+  (open Amqp.Gen.TxnK.route_order in
+   decide (idx_self___session___on_incoming_transfer_received____ < 1000) &&
+   decide (idx_return_self___session___on_incoming_transfer___transfer___payload__ <
+           idx_self___session___on_incoming_transfer_received____)) &&
+  (open Amqp.Gen.TxnK.commit_order in
+   decide (idx_deliver_incoming_transfer < 1000) && decide (idx_on_incoming_transfer = 1000))
+
+/-- the session: the table, per transaction the frames withheld so far, oldest first, and the number of
+    transfers the session's counters (next-incoming-id, the count towards the next flow) have been advanced for -/
 structure St where
   table : Table
   work : Nat → List TFrame
+  counted : Nat := 0
 
 def St.init : St := { table := fun _ => none, work := fun _ => [] }
 
 def step (s : St) (f : TFrame) : St × Route :=
   match route s.table f with
-  | (t, .direct) => ({ s with table := t }, .direct)
+  | (t, .direct) => ({ s with table := t, counted := s.counted + 1 }, .direct)
   | (t, .withheld id) =>
-    ({ table := t, work := fun k => if k = id then s.work k ++ [f] else s.work k }, .withheld id)
+    ({ table := t, work := fun k => if k = id then s.work k ++ [f] else s.work k,
+       counted := s.counted + (if countsWithheld then 1 else 0) }, .withheld id)
 
 def run (s : St) : List TFrame → St × List Route
   | [] => (s, [])
